@@ -668,7 +668,9 @@ pub fn registered_names(s: &RSchema, env: &Env) -> Vec<String> {
 /// Can a value of branch `i` be presented by name: does the name we would use designate only it?
 pub fn branch_designatable_by_name(branches: &[RSchema], i: usize, env: &Env) -> bool {
 	let mine = branch_name(&branches[i], env);
-	branches.iter().enumerate().all(|(j, b)| j == i || !registered_names(b, env).contains(&mine))
+	// The name of a branch is its full name (its type name for unnamed types). Another branch that
+	// merely has the same *short* name does not make it ambiguous: full names take precedence.
+	branches.iter().enumerate().all(|(j, b)| j == i || branch_name(b, env) != mine)
 }
 
 thread_local! {
